@@ -322,7 +322,7 @@ Section WalkSearch.
     destruct (stuck >? MAX_ITERATIONS_STUCK); [|eauto].
     destruct (add_more_turns_range n nbrs st idx1 (conj Hnl Hna) Hst Hidx1 nn tl Hnn B1) as [tl2 [Em [M1 M2]]]. rewrite Em.
     assert (Htl2ne : tl2 <> []).
-    { destruct tl as [|t0 r0]; [contradiction|]. intros C. assert (In t0 tl2) by (apply M2; left; reflexivity). rewrite C in H. destruct H. }
+    { destruct tl as [|tt0 rr0]; [contradiction|]. intros C. assert (In tt0 tl2) by (apply M2; left; reflexivity). rewrite C in H. destruct H. }
     destruct (pick1_ok S next n tl2 s2 M1 Htl2ne) as [jx1 [s3 [Eq1 [Q1 _]]]]. rewrite Eq1.
     destruct (pick1_ok S next n tl2 s3 M1 Htl2ne) as [jx2 [s4 [Eq2 [Q2 _]]]]. rewrite Eq2.
     destruct Hidx1 as [Hil1 Hia1].
